@@ -214,4 +214,185 @@ Proof.
   rewrite memb_ids_read, Er. rewrite map_app. simpl. auto.
 Qed.
 
+(* ---------- Delete ---------- *)
+Definition ckeyin (r : row) (ks : list (uid * uid)) : bool := existsb (fun k => ckeyb (fst k) (snd k) r) ks.
+
+Lemma ckeyin_In r ks : ckeyin r ks = true <-> In (ckey r) ks.
+Proof.
+  unfold ckeyin. rewrite existsb_exists. split.
+  - intros (k & Hk & E). apply ckeyb_true in E. rewrite E. now destruct k.
+  - intros H. exists (ckey r). split; [exact H|]. apply ckeyb_true. reflexivity.
+Qed.
+Lemma ckeyin_false r ks : ckeyin r ks = false <-> ~ In (ckey r) ks.
+Proof.
+  split.
+  - intros H Hin. apply ckeyin_In in Hin. congruence.
+  - intros H. destruct (ckeyin r ks) eqn:E; [|reflexivity]. apply ckeyin_In in E. contradiction.
+Qed.
+
+(* a batch of DeleteItem: every item must be there (a missing one fails the batch) *)
+Definition CDel (m : M) (ks : list (uid * uid)) : Prop :=
+  forall d, NoDup ks -> (forall k, In k ks -> In k (map ckey d)) ->
+            m d = (filter (fun r => negb (ckeyin r ks)) d, true).
+
+Lemma CDel_ret : CDel ret [].
+Proof. intros d _ _. unfold ret. f_equal. symmetry. apply filter_all. reflexivity. Qed.
+
+Lemma CDel_item pid id : CDel (deleteItem pid id) [(pid, id)].
+Proof.
+  intros d _ Hp. unfold deleteItem.
+  destruct (readItem pid id d) as [x|] eqn:E.
+  - f_equal. apply filter_ext_in'. intros r _. unfold ckeyin. simpl. fold (ckeyb pid id r). now rewrite orb_false_r.
+  - exfalso. specialize (Hp (pid, id) (or_introl eq_refl)). apply in_map_iff in Hp as (r & Hk & Hr).
+    rewrite readItem_none in E. exact (E r Hr Hk).
+Qed.
+
+Lemma CDel_bind m f a b : CDel m a -> CDel f b -> CDel (bind m f) (a ++ b).
+Proof.
+  intros Hm Hf d Hnd Hp. apply NoDup_app_inv in Hnd as (Ha & Hb & Hdis).
+  unfold bind. rewrite (Hm d Ha); [|intros k Hk; apply Hp; apply in_or_app; now left].
+  rewrite (Hf _ Hb).
+  - rewrite filter_filter. f_equal. apply filter_ext_in'. intros r _. unfold ckeyin. now rewrite existsb_app, negb_orb.
+  - intros k Hk. assert (Hin := Hp k (in_or_app _ _ _ (or_intror Hk))).
+    apply in_map_iff in Hin as (x & Hx & Hin). apply in_map_iff. exists x. split; [exact Hx|].
+    apply filter_In. split; [exact Hin|]. apply negb_true_iff. apply ckeyin_false. rewrite Hx. intros Hka. exact (Hdis k Hka Hk).
+Qed.
+
+Definition cks_actions (pid : uid) (l : list sact) : list (uid * uid) := map (fun a => (pid, sa_id a)) l.
+Definition cks_checks (pid : uid) (o : option schk) : list (uid * uid) :=
+  match o with None => [] | Some c => cks_actions pid (sc_acts c) ++ [(pid, sc_id c)] end.
+Definition cks_seqs (pid : uid) (l : list sseq) : list (uid * uid) :=
+  flat_map (fun s => cks_actions pid (sq_acts s)) l ++ map (fun s => (pid, sq_id s)) l.
+Definition cks_blockparts (pid : uid) (b : sblk) : list (uid * uid) :=
+  cks_checks pid (sb_byp b) ++ cks_checks pid (sb_pre b) ++ cks_checks pid (sb_post b) ++ cks_checks pid (sb_cont b)
+  ++ cks_checks pid (sb_def b) ++ cks_seqs pid (sb_seqs b).
+Definition cks_blocks (pid : uid) (l : list sblk) : list (uid * uid) :=
+  flat_map (cks_blockparts pid) l ++ map (fun b => (pid, sb_id b)) l.
+Definition cks_plan (p : spln) : list (uid * uid) :=
+  cks_checks (sp_id p) (sp_byp p) ++ cks_checks (sp_id p) (sp_pre p) ++ cks_checks (sp_id p) (sp_post p)
+  ++ cks_checks (sp_id p) (sp_cont p) ++ cks_checks (sp_id p) (sp_def p) ++ cks_blocks (sp_id p) (sp_blocks p)
+  ++ [(sp_id p, sp_id p)].
+
+Lemma CDel_actions pid l : CDel (CosmosModel.deleteActions pid l) (cks_actions pid l).
+Proof.
+  induction l as [|a l IH]; [apply CDel_ret|]. simpl.
+  change ((pid, sa_id a) :: cks_actions pid l) with ([(pid, sa_id a)] ++ cks_actions pid l).
+  apply CDel_bind; [apply CDel_item | exact IH].
+Qed.
+Lemma CDel_checks pid o : CDel (CosmosModel.deleteChecks pid o) (cks_checks pid o).
+Proof. destruct o as [c|]; [|apply CDel_ret]. simpl. apply CDel_bind; [apply CDel_actions | apply CDel_item]. Qed.
+Lemma CDel_seqs pid l : CDel (deleteSeqs pid l) (cks_seqs pid l).
+Proof.
+  unfold deleteSeqs, cks_seqs. apply CDel_bind.
+  - induction l as [|s l IH]; [apply CDel_ret|]. simpl. apply CDel_bind; [apply CDel_actions | exact IH].
+  - induction l as [|s l IH]; [apply CDel_ret|]. simpl.
+    change ((pid, sq_id s) :: map (fun s0 => (pid, sq_id s0)) l) with ([(pid, sq_id s)] ++ map (fun s0 => (pid, sq_id s0)) l).
+    apply CDel_bind; [apply CDel_item | exact IH].
+Qed.
+Lemma CDel_blockparts pid b : CDel (CosmosModel.deleteBlockParts pid b) (cks_blockparts pid b).
+Proof.
+  unfold CosmosModel.deleteBlockParts, cks_blockparts. repeat (apply CDel_bind; [apply CDel_checks|]). apply CDel_seqs.
+Qed.
+Lemma CDel_blocks pid l : CDel (CosmosModel.deleteBlocks pid l) (cks_blocks pid l).
+Proof.
+  unfold CosmosModel.deleteBlocks, cks_blocks. apply CDel_bind.
+  - induction l as [|b l IH]; [apply CDel_ret|]. simpl. apply CDel_bind; [apply CDel_blockparts | exact IH].
+  - induction l as [|b l IH]; [apply CDel_ret|]. simpl.
+    change ((pid, sb_id b) :: map (fun b0 => (pid, sb_id b0)) l) with ([(pid, sb_id b)] ++ map (fun b0 => (pid, sb_id b0)) l).
+    apply CDel_bind; [apply CDel_item | exact IH].
+Qed.
+Lemma CDel_plan p : CDel (CosmosModel.deletePlan p) (cks_plan p).
+Proof.
+  unfold CosmosModel.deletePlan, cks_plan. repeat (apply CDel_bind; [apply CDel_checks|]).
+  apply CDel_bind; [apply CDel_blocks | apply CDel_item].
+Qed.
+
+(* the keys deleted are, up to order, the keys of the plan's items *)
+Lemma cksr_checks pid o : cks_checks pid o = map ckey (crows_checks pid o).
+Proof.
+  destruct o as [c|]; unfold cks_checks, CosmosRep.crows_checks; [|reflexivity].
+  now rewrite map_app, (cactions_ckeys enc_req enc_att).
+Qed.
+Lemma cksr_seqs pid l : forall pos, Permutation (cks_seqs pid l) (map ckey (crows_seqs pid pos l)).
+Proof.
+  unfold cks_seqs. induction l as [|s l IH]; intros pos; [reflexivity|].
+  cbn [CosmosRep.crows_seqs flat_map map]. unfold CosmosRep.crows_seq.
+  rewrite !map_app, (cactions_ckeys enc_req enc_att). cbn [map].
+  rewrite <- !app_assoc. apply Permutation_app_head.
+  etransitivity; [symmetry; apply Permutation_middle|]. cbn [app]. apply perm_skip. apply IH.
+Qed.
+Lemma cksr_block pid pos b : Permutation (cks_blockparts pid b ++ [(pid, sb_id b)]) (map ckey (crows_block pid pos b)).
+Proof.
+  unfold cks_blockparts, CosmosRep.crows_block. rewrite !map_app, !cksr_checks, <- !app_assoc.
+  repeat apply Permutation_app_head. apply Permutation_app; [apply cksr_seqs | reflexivity].
+Qed.
+Lemma cksr_blocks pid l : forall pos, Permutation (cks_blocks pid l) (map ckey (crows_blocks pid pos l)).
+Proof.
+  unfold cks_blocks. induction l as [|b l IH]; intros pos; [reflexivity|].
+  cbn [CosmosRep.crows_blocks flat_map map]. rewrite map_app, <- (cksr_block pid pos b), <- !app_assoc.
+  apply Permutation_app_head. etransitivity; [symmetry; apply Permutation_middle|]. cbn [app].
+  apply perm_skip. apply IH.
+Qed.
+Lemma cksr_plan p : Permutation (cks_plan p) (map ckey (crows_plan p)).
+Proof.
+  unfold cks_plan, CosmosRep.crows_plan. rewrite !map_app, !cksr_checks.
+  repeat apply Permutation_app_head. apply Permutation_app; [apply cksr_blocks | reflexivity].
+Qed.
+
+Lemma NoDup_ckey_filter (P : row -> bool) d : NoDup (map row_id d) -> NoDup (map row_id (filter P d)).
+Proof.
+  induction d as [|r d IH]; simpl; intros H; [constructor|]. inversion H as [|? ? Hn Hd]; subst.
+  destruct (P r); simpl; [constructor; [|auto] | auto].
+  intros Hin. apply Hn. apply in_map_iff in Hin as (x & Hx & Hin). apply filter_In in Hin as [Hin _].
+  apply in_map_iff. eauto.
+Qed.
+
+Lemma cdelete_rows s p :
+  CInv s -> In p s ->
+  filter (fun r => negb (ckeyin r (cks_plan p))) (crows_of s)
+  = crows_of (filter (fun q => negb (uid_eqb (sp_id q) (sp_id p))) s).
+Proof.
+  intros HI Hp. unfold CosmosRep.crows_of at 1. rewrite filter_flat_map.
+  assert (Hids := CInv_plan_ids s HI).
+  assert (G : forall l, incl l s ->
+              flat_map (fun x => filter (fun r => negb (ckeyin r (cks_plan p))) (crows_plan x)) l
+              = crows_of (filter (fun q => negb (uid_eqb (sp_id q) (sp_id p))) l)).
+  { induction l as [|q l IHl]; intros Hl; [reflexivity|].
+    apply incl_cons_inv' in Hl as [Hq Hl]. cbn [flat_map filter]. rewrite (IHl Hl).
+    destruct (uid_eqb (sp_id q) (sp_id p)) eqn:E; cbn [negb].
+    - apply uid_eqb_eq in E. assert (q = p) as -> by (apply (NoDup_map_inj sp_id s); auto).
+      rewrite filter_none; [reflexivity|]. intros r Hr. apply negb_false_iff. apply ckeyin_In.
+      apply (Permutation_in _ (Permutation_sym (cksr_plan p))). now apply in_map.
+    - apply uid_eqb_neq in E. unfold CosmosRep.crows_of. cbn [flat_map]. f_equal.
+      apply filter_all. intros r Hr. apply negb_true_iff. apply ckeyin_false. intros Hk.
+      apply (Permutation_in _ (cksr_plan p)) in Hk. apply in_map_iff in Hk as (r' & Hk & Hr').
+      unfold ckey in Hk. injection Hk as Hk1 _. rewrite (cplanid_plan p r' Hr'), (cplanid_plan q r Hr) in Hk1. congruence. }
+  apply G. apply incl_refl.
+Qed.
+
+Lemma filter_ids s id :
+  filter (fun x => negb (uid_eqb x id)) (map sp_id s) = map sp_id (filter (fun q => negb (uid_eqb (sp_id q) id)) s).
+Proof.
+  induction s as [|q s IH]; [reflexivity|]. simpl. destruct (uid_eqb (sp_id q) id); simpl; now rewrite IH.
+Qed.
+
+Lemma cstep_delete s id :
+  CInv s ->
+  cz_delete id (crep s) = (crep (fst (Spec.delete id s)), snd (Spec.delete id s)) /\ CInv (fst (Spec.delete id s)).
+Proof.
+  intros HI. unfold CosmosModel.delete, CosmosModel.delete_stage, Spec.delete, CosmosRep.crep.
+  rewrite (cread_refines s id HI).
+  destruct (Spec.read id s) as [p|] eqn:E; simpl; [|auto].
+  assert (E' := E). apply spec_read_some in E as [Hp <-].
+  destruct (CInv_sub s p HI Hp) as (Hnp & Hincl & _).
+  unfold txn. rewrite (CDel_plan p (crows_of s)).
+  2:{ apply (Permutation_NoDup (Permutation_sym (cksr_plan p))). now apply NoDup_ckey_of_ids. }
+  2:{ intros k Hk. apply (Permutation_in _ (cksr_plan p)) in Hk. apply in_map_iff in Hk as (r & <- & Hr).
+      apply in_map. now apply Hincl. }
+  cbn [negb]. rewrite (cdelete_rows s p HI Hp), memb_ids_read, E'. simpl. rewrite filter_ids. split; [reflexivity|].
+  split.
+  - rewrite <- (cdelete_rows s p HI Hp). apply NoDup_ckey_filter. exact (proj1 HI).
+  - destruct HI as [_ Hg]. rewrite Forall_forall in *. intros q Hq. apply filter_In in Hq as [Hq _]. auto.
+Qed.
+
 End CRefine.
